@@ -479,7 +479,7 @@ func genericCall(c *Ctx, cl callee, args []reflect.Value) {
 	case "ParseFloat":
 		s := args[0].String()
 		f, err := strconv.ParseFloat(s, 64)
-		bad := err != nil || strings.HasPrefix(s, "0x") || math.IsNaN(f) || math.IsInf(f, 0)
+		bad := err != nil || strings.ContainsAny(s, "xX") || math.IsNaN(f) || math.IsInf(f, 0) // only finite decimal numbers
 		if bad != !res[1].IsNil() || (!bad && res[0].Float() != f) {
 			det["why"] = fmt.Sprintf("got %v, %v; strconv %v, %v", res[0], res[1], f, err)
 			c.Fail("stdlib-differs:ParseFloat", det)
